@@ -286,8 +286,11 @@ Qed.
 Lemma cookie_bytes_clean ck : res_clean (cookie_bytes ck).
 Proof.
   unfold cookie_bytes. destruct (enc_value (ck_k ck)); [|exact I]. destruct (enc_value (ck_v ck)); [|exact I].
-  repeat (apply opt_attr_clean; [reflexivity| |]); try (intros; assumption).
-  2:{ rewrite !no_crlf_app, !csan_no_crlf. reflexivity. }
+  apply opt_attr_clean; [reflexivity| |rewrite !no_crlf_app, !csan_no_crlf; reflexivity].
+  intros a1 H1. apply opt_attr_clean; [reflexivity| |exact H1].
+  intros a2 H2. apply opt_attr_clean; [reflexivity| |exact H2].
+  intros a3 H3. apply opt_attr_clean; [reflexivity| |exact H3].
+  intros a4 H4. apply opt_attr_clean; [reflexivity| |exact H4].
   intros a5 H5. 
   assert (H6 : no_crlf (if ck_secure ck then a5 ++ A_SECURE else a5) = true).
   { destruct (ck_secure ck); [rewrite no_crlf_app, H5; reflexivity|exact H5]. }
